@@ -122,4 +122,7 @@ def dialects(name='f.c'):
         'orig': orig,
         'quoted': quoted,
         'garbage': plain('a/', 'b/', 1, lead=garbage),
+        # doubled separators inside the part -pN strips: a run of slashes ends one component (GNU patch, Path::components)
+        'dslash-p1': plain('a//', 'b//', 1),
+        'dslash-p2': plain('x//a/', 'y/b///', 2),
     }
